@@ -38,8 +38,9 @@ def gen_wrap_consts(repo):
     permille_mul = int(_need(re.search(r"let current_permille = \([\w.()]+ \* (\d+)\) / [\w.()]+;", wr),
                              "current_permille expression").group(1))
     percent_mul = _need(re.search(r"\(percent \* (\d+)\.0\)\.round\(\) as usize", wr), "percent to permille").group(1)
-    # `--wrap-max-lines N` is stored as N + 1, unlimited = 0
-    _need(re.search(r'if arg == "∞" \|\| arg == "unlimited" \|\| arg\.starts_with\("inf"\) \{\s*0\s*\} else \{\s*arg\.parse::<usize>\(\)\s*\.unwrap_or_else\([^\n]*\)\s*\+ (1)\s*\}',
+    # `--wrap-max-lines N` is stored as N + 1 (`+ 1` as pinned, or `.saturating_add(1)`:
+    # notes/fix-wrap-max-lines-overflow.diff), unlimited = 0
+    _need(re.search(r'if arg == "∞" \|\| arg == "unlimited" \|\| arg\.starts_with\("inf"\) \{\s*0\s*\} else \{\s*arg\.parse::<usize>\(\)\s*\.unwrap_or_else\([^\n]*\)\s*(?:\+ (1)|\.saturating_add\((1)\))\s*\}',
                     wr), "adapt_wrap_max_lines_argument")
     div = int(_need(re.search(r"cli::Width::Fixed\(w\) => w / (\d+),", sbs), "new_sbs panel width").group(1))
     div2 = int(_need(re.search(r"_ => available_terminal_width / (\d+),", sbs), "new_sbs panel width (variable)").group(1))
